@@ -85,7 +85,7 @@ class C19(Prop):
     components = {"real": ["baize.responses.build_bytes_from_sse", "baize.asgi.responses.SendEventResponse", "baize.wsgi.responses.SendEventResponse",
                            "asyncio.Queue/wait_for (CPython 3.12)"],
                   "stub": ["event loop clock/selector", "ASGI/WSGI server peers", "queue.Queue/executor/Future waiting (SimThreads)", "EventSource client (reference parser)"]}
-    hard_probes = ("ping_interleaved", "rechunked", "exotic_separator_in_data", "same_dict_twice", "wsgi_run", "asgi_run")
+    hard_probes = ("ping_interleaved", "rechunked", "exotic_separator_in_data", "same_dict_twice", "wsgi_run", "asgi_run", "response_object_reused")
     quick_runs = 120000
     thorough_runs = 1500000
     batch = 250
@@ -103,7 +103,9 @@ class C19(Prop):
         ds = (0.0, 0.0, 0.001, P / 2, P - 0.001, P, P + 0.001, 2 * P + 0.001)
         plan = {"surface": surface, "charset": charset, "P": P, "events": events, "twice": twice,
                 "delays": [t.choice(ds) for _ in range(n + 1)], "end_delay": t.choice((0.0, P + 0.001)),
-                "lat": t.choice(["fast", "mixed"]), "rechunk": t.draw(3)}
+                "lat": t.choice(["fast", "mixed"]), "rechunk": t.draw(3),
+                # the response object is mounted as an application and serves two requests (its feed is re-iterable)
+                "reuse": t.draw(6) == 0}
         if surface == "wsgi-sse":
             plan["preempt"] = t.choice([(0, 1), (1, 20), (1, 5)])
             plan["cdelays"] = [t.choice((0.0, 0.0, 0.001, P / 2, P + 0.001)) for _ in range(6)]
@@ -148,11 +150,23 @@ class C19(Prop):
                 if plan["end_delay"]:
                     await asyncio.sleep(plan["end_delay"])
 
+            class Feed:             # re-iterable: every request iterates it afresh
+                def __aiter__(self):
+                    return gen()
+
             peer = AsgiHttpPeer(loop, ctx, ctx.sched, AbstractRequest("GET", "/"), send_lats=lats, surface="asgi-sse")
-            r = SendEventResponse(gen(), ping_interval=P, charset=plan["charset"])
+            r = SendEventResponse(Feed() if plan.get("reuse") else gen(), ping_interval=P, charset=plan["charset"])
             exc = None
             try:
                 await r(peer.scope, peer.receive, peer.send)
+                if plan.get("reuse"):
+                    ctx.probe("response_object_reused")
+                    first = b"".join(peer.body_chunks)
+                    peer = AsgiHttpPeer(loop, ctx, ctx.sched, AbstractRequest("GET", "/"), send_lats=lats, surface="asgi-sse")
+                    await r(peer.scope, peer.receive, peer.send)
+                    second = b"".join(peer.body_chunks)
+                    if first.replace(b": ping\n\n", b"") != second.replace(b": ping\n\n", b""):
+                        ctx.violate("C19|asgi-sse|reused-response-object-delivers-differently", "first request %r, second request %r" % (first[:120], second[:120]))
             except Exception as e:
                 exc = e
             await asyncio.sleep(0.01)
@@ -195,13 +209,28 @@ class C19(Prop):
                 if d:
                     _t.sleep(d)
 
+            class Feed:
+                def __iter__(self):
+                    return gen()
+
+            reuse_out = {}
+
             def consumer():
-                peer.run(SendEventResponse(gen(), ping_interval=P, charset=plan["charset"]), on_item=on_item)
+                resp = SendEventResponse(Feed() if plan.get("reuse") else gen(), ping_interval=P, charset=plan["charset"])
+                if plan.get("reuse"):
+                    ctx.probe("response_object_reused")
+                    p0 = WsgiPeer(ctx, ctx.sched, AbstractRequest("GET", "/"), surface="wsgi-sse")
+                    p0.run(resp)
+                    reuse_out["first"] = p0.body
+                peer.run(resp, on_item=on_item)
 
             s.spawn(consumer, "consumer")
             res = s.run()
             snap = (res, s.snapshot(), list(peer.items), peer.exc or peer.close_exc, peer.header("content-type"), s.preemptions)
         res, threads, items, exc, ctype, pre = snap
+        if "first" in reuse_out and res == "ok" and exc is None:
+            if reuse_out["first"].replace(b": ping\n\n", b"") != b"".join(items).replace(b": ping\n\n", b""):
+                ctx.violate("C19|wsgi-sse|reused-response-object-delivers-differently", "first request %r, second request %r" % (reuse_out["first"][:120], b"".join(items)[:120]))
         ctx.actors = 2
         if pre:
             ctx.fault("thread_preemption", pre)
